@@ -9,7 +9,10 @@ use tracing::instrument;
 use crate::common::cache::CacheOptions;
 use crate::{
     bitfield::Bitfield,
-    common::{BitfieldUpdate, HypercoreError, NodeByteRange, Proof, StoreInfo, ValuelessProof},
+    common::{
+        BitfieldUpdate, HypercoreError, NodeByteRange, Proof, Store, StoreInfo,
+        StoreInfoInstruction, ValuelessProof,
+    },
     crypto::{generate_signing_key, PartialKeypair},
     data::BlockStore,
     oplog::{Header, Oplog, MAX_OPLOG_ENTRIES_BYTE_SIZE},
@@ -446,9 +449,20 @@ impl Hypercore {
 
         let clear_length = (last_byte_range.index + last_byte_range.length) - clear_offset;
 
-        // Clear blocks
-        let info_to_flush = self.block_store.clear(clear_offset, clear_length);
-        self.storage.flush_info(info_to_flush).await?;
+        // Clear blocks. The data store can end before the hole does: a delete that reaches the end
+        // of the store truncates it, so a hole that starts behind a held empty block can lie
+        // entirely beyond the end of the store. There is nothing to delete then (and the store
+        // would refuse the offset).
+        let data_length = self
+            .storage
+            .read_info(StoreInfoInstruction::new_size(Store::Data, 0))
+            .await?
+            .length
+            .unwrap_or(0);
+        if clear_length > 0 && clear_offset < data_length {
+            let info_to_flush = self.block_store.clear(clear_offset, clear_length);
+            self.storage.flush_info(info_to_flush).await?;
+        }
 
         // Now ready to flush
         if self.should_flush_bitfield_and_tree_and_oplog() {
